@@ -1,6 +1,8 @@
 import FlVerif.Lemmas.FllRepresentable
 import FlVerif.Lemmas.CodeFllExportNamed
 import FlVerif.Lemmas.CodeFllExportFormat
+import FlVerif.Lemmas.CodeFllImportEngine
+import FlVerif.Lemmas.CodeFllImportTerm
 
 /-! # C14 — FuzzyLite Language export / import round-trips engines
 
@@ -19,6 +21,180 @@ the numeric outputs of a re-imported engine. -/
 
 namespace C14
 open Op.FllIO Dec Spec.Fll
+
+/-! ## Tie A: the importer translated from the current source (`fv/pylean.py`, `Gen/CodeFllImport.lean`)
+
+The methods of `FllImporter` work on strings; the model `Op.FllIO` works on token lines.  Both meet in the lexer
+`lexLine` of `Op/FllText.lean` (cut at `#`, strip, cut at the first colon, strip, tokens of the value by key), and the
+translated loops are proved equal to the model's line functions applied to `lexLine` of each raw line **when the loop
+reaches it** (`stepText`): same exception class, same component.  What stays an external (trusted vocabulary,
+`Op/PyExtFllImport.lean`): the character-level meaning of `str.strip / split`, `Op.strip_comments`, `to_float`, the
+separator fixed to `"\n"`, and the methods of other classes (factories, `configure`, `Rule.create`) as the model's
+`configure`, `activParams`, `defuzzParams`, `importRule` on the tokens of the text.  The four methods `term`, `rule`,
+`defuzzifier`, `activation` are called from the loops through their text-level models `Py.Fll.termOf`, … -/
+
+/-- `FllImporter.extract_key_value`: comments stripped, cut at the first colon, `SyntaxError` without a colon or when
+    the text before the colon is not the expected key (compared *unstripped*), both parts stripped -/
+theorem code_fllKeyValue (fll : String) (component : Option String) :
+    Gen.Code.FllImporter_extract_key_value.run fll component {} =
+      (Py.Fll.keyValue fll component).map
+        (fun kv => { parts := Py.Fll.splitColon (Py.Fll.stripComments fll), ret := some kv }) :=
+  code_keyValue fll component
+
+/-- the (key, value) pair that `extract_key_value` returns for a raw line is the pair the lexer turns into the
+    token line of the model (the line of the unknown key `term ` / `rule ` when white space precedes the colon) -/
+theorem fllKeyValue_lexLine (x : String) :
+    (Py.Fll.stripComments x = "" ∧ lexLine x.toList = .ok none) ∨
+    (Py.Fll.stripComments x ≠ "" ∧ (∀ c, Py.Fll.keyValue (Py.Fll.stripComments x) c = .error .syntax) ∧
+      lexLine x.toList = .error .syntax) ∨
+    (∃ k v, Py.Fll.stripComments x ≠ "" ∧
+      Py.Fll.keyValue (Py.Fll.stripComments x) none = .ok (Py.Fll.strip k, Py.Fll.strip v) ∧
+      lexLine x.toList =
+        if (Key.ofText (Py.Fll.strip k) = .term ∨ Key.ofText (Py.Fll.strip k) = .rule) ∧ k ≠ Py.Fll.strip k
+        then .ok (some ⟨.other k, textTok (Py.Fll.strip v).toList⟩)
+        else .ok (some ⟨Key.ofText (Py.Fll.strip k), lexValue (Key.ofText (Py.Fll.strip k)) (Py.Fll.strip v).toList⟩)) := by
+  rcases lineCase x with ⟨hb, hl⟩ | ⟨hb, hk, hl⟩ | ⟨k, v, hb, hs, hl⟩
+  · exact Or.inl ⟨hb, hl⟩
+  · exact Or.inr (Or.inl ⟨hb, hk, hl⟩)
+  · refine Or.inr (Or.inr ⟨k, v, hb, ?_, hl⟩)
+    have := keyValue_pair x k v hs none
+    simpa [Py.Fll.truthyOptStr] using this
+
+/-- `FllImporter.extract_value` -/
+theorem code_fllExtractValue (fll : String) (component : Option String) :
+    Gen.Code.FllImporter_extract_value.run fll component {} =
+      (Py.Fll.keyValue fll component).map (fun kv => { ret := some kv.2 }) :=
+  code_extractValue fll component
+
+/-- `FllImporter.boolean` = `boolOf` on the token of the stripped text -/
+theorem code_fllBoolean (fll : String) :
+    Gen.Code.FllImporter_boolean.run fll {} =
+      (Py.Fll.lift (boolOf (textTok (trimChars fll.toList)))).map (fun b => { ret := some b }) :=
+  code_boolean fll
+
+/-- `FllImporter.range` = `rangeOf` on the number tokens of the words of the text -/
+theorem code_fllRange (fll : String) :
+    Gen.Code.FllImporter_range.run fll {} =
+      (Py.Fll.lift (rangeOf ((words fll.toList).map numTokOf))).map
+        (fun r => { values := Py.Fll.words fll, ret := some r }) :=
+  code_range fll
+
+/-- `FllImporter.tnorm` = `normOf` over the regenerated table of T-norms -/
+theorem code_fllTnorm (fll : String) :
+    Gen.Code.FllImporter_tnorm.run fll {} =
+      (Py.Fll.lift (normOf Gen.Tables.tnormKeys (textTok fll.toList))).map (fun o => { ret := some o }) :=
+  code_tnorm fll
+
+/-- `FllImporter.snorm` = `normOf` over the regenerated table of S-norms -/
+theorem code_fllSnorm (fll : String) :
+    Gen.Code.FllImporter_snorm.run fll {} =
+      (Py.Fll.lift (normOf Gen.Tables.snormKeys (textTok fll.toList))).map (fun o => { ret := some o }) :=
+  code_snorm fll
+
+/-- `FllImporter.rule` = the text-level model `ruleOf` that `rule_block` calls: `extract_value(line, "rule")`, then
+    `Rule.parse` of the model (`importRule`) on the tokens of the value -/
+theorem code_fllRule (fll : String) :
+    Gen.Code.FllImporter_rule.run fll {} = (Py.Fll.ruleOf fll).map (fun r => { ret := some r }) :=
+  code_rule fll
+
+/-- `FllImporter.term` = the text-level model `termOf` that `input_variable` / `output_variable` call:
+    `extract_value(line, "term")`, name and class, `SyntaxError` for fewer than two words, factory construction and
+    `configure` = the model's `importTerm` on the tokens of the value -/
+theorem code_fllTerm (fll : String) :
+    (Gen.Code.FllImporter_term.run fll {} >>= fun r => Py.deref r.ret) = Py.Fll.termOf fll :=
+  code_term fll
+
+/-- `FllImporter.activation` on a stripped value (what `extract_key_value` returns; on a text with surrounding white
+    space the code raises where the lexer strips) = the text-level model `activOf` that `rule_block` calls: `none`,
+    class name, factory construction, `configure` = the model's `importActiv` on the tokens of the value -/
+theorem code_fllActivation (v : String) :
+    (Gen.Code.FllImporter_activation.run (Py.Fll.strip v) {} >>= fun r => Py.deref r.ret) =
+      Py.Fll.activOf (Py.Fll.strip v) :=
+  code_activation v
+
+/-- `FllImporter.defuzzifier` on a stripped value = the text-level model `defuzzOf` that `output_variable` calls
+    (the model's `importDefuzz` on the tokens of the value) -/
+theorem code_fllDefuzzifier (v : String) :
+    (Gen.Code.FllImporter_defuzzifier.run (Py.Fll.strip v) {} >>= fun r => Py.deref r.ret) =
+      Py.Fll.defuzzOf (Py.Fll.strip v) :=
+  code_defuzzifier v
+
+/-- `FllImporter.input_variable`: the key dispatch loop is `importVarLine` on the lexed lines, then the name as an
+    identifier - same exception class, same variable, for every text -/
+theorem code_fllInputVariable (fll : String) :
+    match ((Py.Fll.splitLines fll).foldlM (stepText (importVarLine .inputVariable)) {}).map finishVar with
+    | .error e => Gen.Code.FllImporter_input_variable.run fll {} = .error e.toPy
+    | .ok v => ∃ σ, Gen.Code.FllImporter_input_variable.run fll {} = .ok σ ∧ σ.ret = some v := by
+  have h := code_inputVariable_agree fll
+  unfold importInputText at h
+  generalize ((Py.Fll.splitLines fll).foldlM (stepText (importVarLine .inputVariable)) {}).map finishVar = r at h ⊢
+  cases r <;> exact h
+
+/-- `FllImporter.output_variable`: `importOutLine` on the lexed lines -/
+theorem code_fllOutputVariable (fll : String) :
+    match ((Py.Fll.splitLines fll).foldlM (stepText importOutLine) {}).map (fun o => { o with base := finishVar o.base }) with
+    | .error e => Gen.Code.FllImporter_output_variable.run fll {} = .error e.toPy
+    | .ok v => ∃ σ, Gen.Code.FllImporter_output_variable.run fll {} = .ok σ ∧ σ.ret = some v := by
+  have h := code_outputVariable_agree fll
+  unfold importOutputText at h
+  generalize ((Py.Fll.splitLines fll).foldlM (stepText importOutLine) {}).map (fun o => { o with base := finishVar o.base }) = r at h ⊢
+  cases r <;> exact h
+
+/-- `FllImporter.rule_block`: `importBlockLine` on the lexed lines -/
+theorem code_fllRuleBlock (fll : String) :
+    match (Py.Fll.splitLines fll).foldlM (stepText importBlockLine) {} with
+    | .error e => Gen.Code.FllImporter_rule_block.run fll {} = .error e.toPy
+    | .ok v => ∃ σ, Gen.Code.FllImporter_rule_block.run fll {} = .ok σ ∧ σ.ret = some v := by
+  have h := code_ruleBlock_agree fll
+  unfold importBlockText at h
+  generalize (Py.Fll.splitLines fll).foldlM (stepText importBlockLine) {} = r at h ⊢
+  cases r <;> exact h
+
+/-- when every line lexes, the text-level reading of a component is the model's reading of its token lines -/
+theorem stepText_lexed {β : Type} (f : β → Line → Except Err β) (ws : List (List Char)) (ls : List Line)
+    (h : lexLines ws = .ok ls) (b : β) : (ws.map String.ofList).foldlM (stepText f) b = ls.foldlM f b :=
+  foldlM_stepText_lexed f ws ls h b
+
+/-- `FllImporter._process`: the `Engine` lines in place, the three other components through their methods -/
+theorem code_fllProcess (component : String) (block : List String) (e : Engine) :
+    match processText component block e with
+    | .error err => Gen.Code.FllImporter__process.run component block e {} = .error err.toPy
+    | .ok v => ∃ σ, Gen.Code.FllImporter__process.run component block e {} = .ok σ ∧ σ.engine = v := by
+  have h := code_process component block e
+  generalize processText component block e = r at h ⊢
+  cases r <;> exact h
+
+/-- **`FllImporter.engine`** (the block cutting loop): the translated code is the loop `engineLoop` of the model with
+    each line lexed when the loop reaches it - same exception class, same engine, for every text -/
+theorem code_fllEngine (fll : String) :
+    match engineLoopText (Py.Fll.splitLines fll) none [] {} with
+    | .error e => Gen.Code.FllImporter_engine.run fll {} = .error e.toPy
+    | .ok v => ∃ σ, Gen.Code.FllImporter_engine.run fll {} = .ok σ ∧ σ.ret = some v := by
+  have h := code_engine fll
+  unfold importTextLazy at h
+  change Agree _ (Except.map some (engineLoopText (Py.Fll.splitLines fll) none [] {})) _ at h
+  generalize engineLoopText (Py.Fll.splitLines fll) none [] {} = r at h ⊢
+  cases r <;> exact h
+
+/-- on every text all of whose lines lex (every non-empty line has a colon), the translated `engine` is the model
+    `fllImport` of the theorems below, applied to the token lines of the text -/
+theorem code_fllEngine_tokens (fll : String) (ls : List Line) (h : lexText fll = .ok ls) :
+    match fllImport ls with
+    | .error e => Gen.Code.FllImporter_engine.run fll {} = .error e.toPy
+    | .ok v => ∃ σ, Gen.Code.FllImporter_engine.run fll {} = .ok σ ∧ σ.ret = some v := by
+  rw [← importTextLazy_lexed fll ls h]
+  exact code_fllEngine fll
+
+/-- a text with a non-empty line without a colon is rejected by the translated `engine` (the class is `SyntaxError`
+    unless a component completed before that line raises first) -/
+theorem code_fllEngine_unlexed (fll : String) (e : Err) (h : lexText fll = .error e) :
+    ∃ e', Gen.Code.FllImporter_engine.run fll {} = .error e' := by
+  have h1 := engineLoopText_unlexed (splitNl fll.toList) e h none [] {}
+  obtain ⟨e2, he2⟩ := h1
+  have h2 := code_fllEngine fll
+  unfold Py.Fll.splitLines at h2
+  rw [he2] at h2
+  exact ⟨_, h2⟩
 
 /-! ## decimal text -/
 
